@@ -152,6 +152,9 @@ fn gen_package(seed: u64, dst: &Path) {
         let t = i % n_structs;
         s.push_str(&format!("    #[storage(read, write)]\n    fn f{i}(x: u64, s: S{t}) -> E{t};\n"));
     }
+    // ABI types whose type strings tie (two different 2-tuples, two different 2-arrays) and method names of several
+    // lengths: what the ABI JSON's type numbering and the contract's method dispatch are ordered by
+    s.push_str("    fn tuples(a: (u64, bool), b: (bool, u64)) -> (b256, u64);\n    fn arrays_of_two(a: [u64; 2], b: [bool; 2]) -> [b256; 2];\n");
     s.push_str("}\n\n");
     let idx_helpers = s.len();
     // near-duplicate private helpers
@@ -196,6 +199,7 @@ fn gen_package(seed: u64, dst: &Path) {
             rng.next_u64() % 1000
         ));
     }
+    s.push_str("    fn tuples(a: (u64, bool), b: (bool, u64)) -> (b256, u64) {\n        (branchy(a.0), if b.0 { b.1 } else { a.0 })\n    }\n    fn arrays_of_two(a: [u64; 2], b: [bool; 2]) -> [b256; 2] {\n        [branchy(a[0]), branchy(if b[1] { a[1] } else { 0 })]\n    }\n");
     s.push_str("}\n");
     // two in five generated packages are a script or a predicate instead (script hash / predicate root are derived
     // from the bytecode): same types, configurables and helpers, no storage / ABI, a `main` that uses the helpers
